@@ -346,3 +346,28 @@ VARIANTS["C20"].append(B("key-helper-extracted-returns-raw", [("dispatch.py", " 
 
 VARIANTS["C06"].append(B("split-by-range-drops-a-byte-per-fragment", [(C, "        while len(payload) > 0:\n            if len(payload) < Packet.MAX_PAYLOAD_SIZE - Packet.FRAGMENT_OVERHEAD:\n                # allow the final fragment to use as much space as possible\n                self.fragments.append(payload)\n                payload = b\"\"\n            else:\n                # intermediate fragments should leave room for other\n                # messages\n                self.fragments.append(payload[:Packet.MAX_FRAGMENT_SIZE])\n                payload = payload[Packet.MAX_FRAGMENT_SIZE:]\n",
                                         "        for offset in range(0, len(payload), Packet.MAX_FRAGMENT_SIZE):\n            self.fragments.append(payload[offset:offset + Packet.MAX_FRAGMENT_SIZE - 1])\n")], "C06.R1"))
+
+# twins of the round-4 seeded changes
+TWINS4 = {
+    "C01": [OK("twin-empty-packet-return-after-authentication", [(C, "        # unpack the payload into a list of PendingMessage instances\n\n        msgs = []\n",
+                                                                 "        if pkt.hdr.count == 0:\n            # a keep alive carries no messages\n            pkt.msgs = []\n            return pkt\n\n        # unpack the payload into a list of PendingMessage instances\n\n        msgs = []\n")])],
+    "C02": [OK("twin-verify-wrapper-converts-and-raises", [("crypto.py", "        self.key.verify(signature, data, ec.ECDSA(hashes.SHA256()))",
+                                                            "        try:\n            self.key.verify(signature, data, ec.ECDSA(hashes.SHA256()))\n        except (TypeError, ValueError) as e:\n            raise InvalidSignature(\"malformed signature: %s\" % e)")])],
+    "C03": [OK("twin-aad-sliced-to-header-size", [(C, "            ct_withtag = crypto.encrypt_gcm(key, iv, hdr, self.msg)", "            aad = hdr[:PacketHeader.SIZE]\n            ct_withtag = crypto.encrypt_gcm(key, iv, aad, self.msg)")])],
+    "C04": [OK("twin-message-number-in-a-local", [(C, "        self.seq_message += 1\n\n        if retry == RetryMode.RETRY_ON_TIMEOUT:\n            callback = RetrySender(self, self.seq_message, pkt_type, payload, callback)\n\n        msg = PendingMessage(self.seq_message, pkt_type, payload, callback, retry)",
+                                                   "        self.seq_message += 1\n        number = self.seq_message\n\n        if retry == RetryMode.RETRY_ON_TIMEOUT:\n            callback = RetrySender(self, number, pkt_type, payload, callback)\n\n        msg = PendingMessage(number, pkt_type, payload, callback, retry)")])],
+    "C06": [OK("twin-decoder-walks-by-offset", [(C, "            payload = pkt.msg\n            for i in range(pkt.hdr.count):\n                length, seq, typ = struct.unpack(\">HHB\", payload[:5])\n                typ = PacketType(typ)\n                seq = SeqNum(seq)\n                msg = payload[5: 5 + length]\n\n                msgs.append(PendingMessage(seq, typ, msg, None, 0))\n\n                payload = payload[5+length:]",
+                                                 "            payload = pkt.msg\n            offset = 0\n            for i in range(pkt.hdr.count):\n                length, seq, typ = struct.unpack_from(\">HHB\", payload, offset)\n                typ = PacketType(typ)\n                seq = SeqNum(seq)\n                offset += 5\n                msg = payload[offset: offset + length]\n\n                msgs.append(PendingMessage(seq, typ, msg, None, 0))\n\n                offset += length")])],
+    "C07": [OK("twin-last-fragment-bound-respelled", [(C, "            if len(payload) < Packet.MAX_PAYLOAD_SIZE - Packet.FRAGMENT_OVERHEAD:", "            if len(payload) < Packet.MAX_CONTENT_SIZE - Packet.MESSAGE_OVERHEAD_1 - Packet.FRAGMENT_OVERHEAD:")])],
+    "C09": [OK("twin-capacity-read-once-per-call", [(C, "        pkt_type = PacketType.UNKNOWN\n        msgs = [] # messages (seq, typ, msg) to include in this packet",
+                                                     "        capacity = Packet.MAX_CONTENT_SIZE\n        pkt_type = PacketType.UNKNOWN\n        msgs = [] # messages (seq, typ, msg) to include in this packet"),
+                                                    (C, "                if size <= Packet.MAX_CONTENT_SIZE and len(msgs) < Packet.MAX_MESSAGES:", "                if size <= capacity and len(msgs) < Packet.MAX_MESSAGES:"),
+                                                    (C, "            if size <= Packet.MAX_CONTENT_SIZE and len(msgs) < Packet.MAX_MESSAGES:", "            if size <= capacity and len(msgs) < Packet.MAX_MESSAGES:")])],
+}
+for _k, _v in TWINS4.items():
+    VARIANTS[_k].extend(_v)
+# twins that concern shared mechanisms are run for every property that shares them
+VARIANTS["C09"].extend(TWINS4["C06"] + TWINS4["C07"])
+VARIANTS["C05"].extend(TWINS4["C07"] + TWINS4["C09"] + TWINS4["C06"])
+VARIANTS["C07"].extend(TWINS4["C09"])
+VARIANTS["C03"].extend([OK("twin-aad-slice-from-zero", [(C, "            aad = datagram[:PacketHeader.SIZE]", "            aad = datagram[0:PacketHeader.SIZE]")])])
